@@ -37,7 +37,10 @@ func (pc *posChecker) lex(s *ast.Source) *lexedSrc {
 		return l
 	}
 	l := &lexedSrc{res: reflex.Lex(s.Input, reflex.Defects{}), startAt: map[int]int{}, lineCol: map[[2]int]bool{}, stringAt: map[[2]int]bool{}, sm: newSrcMap(s.Input)}
-	if cf, _ := lexDiff(lexImpl(s.Input), l.res); cf != "" {
+	im := lexImpl(s.Input)
+	if _, _, extentOnly := extentOnlyDiff(im, l.res); extentOnly {
+		// same tokens at other offsets: positions are judged against the grammar's tokens
+	} else if cf, _ := lexDiff(im, l.res); cf != "" {
 		// the lexer and the grammar disagree on this source's tokens (C03's business):
 		// positions cannot be judged against the grammar's tokens
 		l.res.Undecided = true
